@@ -488,7 +488,8 @@ Definition enc_idx (o : option idxv) (nthreads : nat) : list N :=
 Definition enc_disk (s : st) (nthreads : nat) : list N :=
   enc_file (truth s)
   ++ concat (map (fun c => match get (N.of_nat c) (sides s) with None => [0] | Some ch => 1 :: enc_file ch end) (seq 0 nthreads))
-  ++ enc_idx (idx s) nthreads ++ enc_idx (idx_tmp s) nthreads.
+  ++ enc_idx (idx s) nthreads ++ enc_idx (idx_tmp s) nthreads
+  ++ [nlen (arts s); nlen (art_tmps s)].
 
 Definition has_ok (is : list instr) : bool := existsb (fun i => match i with IOk => true | _ => false end) is.
 Fixpoint run_ops_res (v : ver) (s : st) (i : N) (ops : list op) : st * list N :=
